@@ -366,6 +366,8 @@ def fixed_tolerance(ctx, single, sh, method, shapes, idx, odx, wvl, efl, samples
     """(rtol, abs_tol) for a relation between fixed-sampling calls.  float64: RTOL of the reference maximum (1e-4 when the
     shift sits in a float32 container: numpy then converts it to samples in float32).  Single precision: C01's rule per
     call, relative to the bound sum|a| / sqrt(Na Q0 Ma Q1) of the inputs involved; None when ill-conditioned."""
+    if sh.lowprec and method == 'czt':
+        single = True         # a float32 shift drags the chirp arithmetic of czt2 to float32 (C01's ledgered finding): float32 conditioning
     if not single:
         return (1e-4 if sh.lowprec else RTOL), None
     tot = 0.0
@@ -424,7 +426,7 @@ def _sizes(rnd, rounds=8):
 
 def wl_linearity(ctx, R):
     from ..util import precision
-    rounds = ctx.pick(3, 1200)
+    rounds = ctx.pick(3, 1800)
     k = -1
     st = [0]
     for rnd in range(rounds):
@@ -473,7 +475,7 @@ def wl_linearity(ctx, R):
 
 def wl_embedding(ctx, R):
     from ..util import precision
-    rounds = ctx.pick(4, 1200)
+    rounds = ctx.pick(4, 1800)
     k = -1
     st = [0]
     for rnd in range(rounds):
@@ -525,7 +527,7 @@ def wl_embedding(ctx, R):
 
 def wl_transpose(ctx, R):
     from ..util import precision
-    rounds = ctx.pick(4, 900)
+    rounds = ctx.pick(4, 1350)
     k = -1
     st = [0]
     for rnd in range(rounds):
@@ -620,6 +622,8 @@ def exact_band(rng, acls, lo, hi):
 def tfb_tolerance(ctx, single, sh, method, a, shp, mshape, dx, fdx, wvl, efl, s, mask_max=1.0):
     """(rtol, abs_tol) for relations between to_fpm_and_back results.  Single precision: the two legs' C01 tolerances
     (max of them) of ||a||_2 * max|mask| -- the bound C02 uses for a two-leg trip; None when ill-conditioned."""
+    if sh.lowprec and method == 'czt':
+        single = True         # see fixed_tolerance
     if not single:
         return (1e-4 if sh.lowprec else RTOL), None
     r1, _ = single_tol(method, shp, dx, fdx, wvl, efl, mshape, s)
@@ -644,7 +648,7 @@ def ones_mask(v, shape):
 
 def wl_allpass(ctx, R):
     from ..util import precision
-    rounds = ctx.pick(8, 1800)
+    rounds = ctx.pick(8, 2700)
     k = -1
     st = [0]
     for rnd in range(rounds):
@@ -713,7 +717,7 @@ def wl_allpass(ctx, R):
 def wl_masks(ctx, R):
     """Additivity / linearity in the mask and the Babinet composition at arbitrary mask sampling (not the exact band)."""
     from ..util import precision
-    rounds = ctx.pick(4, 700)
+    rounds = ctx.pick(4, 1050)
     k = -1
     st = [0]
     for rnd in range(rounds):
@@ -827,7 +831,7 @@ def wl_history(ctx, R):
     relation instance is judged at the full float64 tolerance."""
     from prysm import fttools
     from prysm.conf import config
-    n = ctx.pick(400, 150000)
+    n = ctx.pick(400, 225000)
     maxlen = ctx.pick(4, 10)
     for k in range(n):
         if not ctx.mine(k):
@@ -866,7 +870,8 @@ def wl_history(ctx, R):
                 else:
                     odx = dx
                     idx = wvl * efl / (max(samples) * dx) * logu(r2, 0.3, 2.5)
-                sh = ShiftArg(shift_kind(seed, scls), (s[0] * odx, s[1] * odx))
+                hk = shift_kind(seed, scls)
+                sh = ShiftArg('nd-f64' if (hk == 'nd-f32' and method == 'czt') else hk, (s[0] * odx, s[1] * odx))   # float32 shift + czt: see fixed_tolerance
                 rt = 1e-4 if sh.lowprec else RTOL
                 a = cnormal(r2, in_shape)
                 if kind == 'traffic':
@@ -917,7 +922,7 @@ def wl_history(ctx, R):
                     # all-pass identity on the exact band with the history's pupil shape; the band size is fixed per history
                     P_ = max(in_shape) + 3
                     fdx = wvl * efl / (dx * P_)
-                    sh2 = ShiftArg(shift_kind(seed, scls), (s[0] * fdx, s[1] * fdx))
+                    sh2 = ShiftArg('nd-f64' if (hk == 'nd-f32' and method == 'czt') else hk, (s[0] * fdx, s[1] * fdx))
                     label = tfb_label(method, in_shape, P_)
                     key = tfb_key(method, label, shifted)
 
